@@ -42,8 +42,8 @@ var aliasKindsDeep = append(append([]string{}, aliasKinds...), "alias-hardlink-c
 var allDstDeep = append(append([]string{}, dstKindsDeep...), aliasKindsDeep...)
 
 // the random shards also draw the source-side alias kinds
-var srcKindsRand = append(append([]string{}, srcKindsDeep...), "symlink-chain", "dot", "hardlink", "symlink")
-var allDstRand = append(append(append([]string{}, allDstDeep...), realAliasKinds...), realAliasKinds...)
+var srcKindsRand = append(append([]string{}, srcKindsDeep...), "symlink-chain", "symlink-chain3", "dot", "hardlink", "symlink")
+var allDstRand = append(append(append(append([]string{}, allDstDeep...), realAliasKinds...), realAliasKinds...), midAliasKinds...)
 
 var nameStyles = []string{"", "space", "unicode", "newline", "long", "dash", "meta"}
 
